@@ -36,6 +36,32 @@ def emitted_value(html: str, key: str) -> str | None:
     return "\0unparsable\0" + html
 
 
+def merged_ok(combo, got) -> bool:
+    """property-level reading of a merged value: the operands' renderings joined by single spaces, where a plain
+    operand may be written with ANY character references that decode to its special characters"""
+    if got is None or not isinstance(got, str) or got.startswith("\0"):
+        return False
+    ops_ = [o for o in combo if o[0] not in ("none", "f")]
+    if not ops_:
+        return False
+    pos = 0
+    for n, o in enumerate(ops_):
+        if n:
+            if not got.startswith(" ", pos):
+                return False
+            pos += 1
+        if o[0] == "p":
+            pos = subst.consume_escape(o[1], got, pos, subst.ATTR_SPECIALS)
+            if pos is None:
+                return False
+        else:
+            lit = {"h": lambda: o[1], "t": lambda: "", "n": lambda: str(o[1])}[o[0]]()
+            if not got.startswith(lit, pos):
+                return False
+            pos += len(lit)
+    return pos == len(got)
+
+
 def run(tier: str) -> int:
     from htmltools import HTML, Tag
     ck = core.Check(PID, tier, PROP_FILES)
@@ -133,7 +159,7 @@ def run(tier: str) -> int:
                 nt = any(o[0] == "p" and set(o[1]) & set(ALPHA[:-1]) for o in combo)
                 if nt:
                     ck.distinct_nontrivial += 1
-                if got != want:
+                if got != want and not merged_ok(combo, got):
                     line = f"merge {entry} {combo!r}"
                     ck.py_violation(line, repr(got), f"merged attribute value written as {got!r}; the statement requires {want!r} "
                                     f"(each plain operand through the seven-character map, HTML() verbatim, joined by single spaces)",
@@ -144,7 +170,8 @@ def run(tier: str) -> int:
             t = Tag("div", title="old")
             t.attrs["title"] = v
             ck.holds_checked += 1
-            if emitted_value(t.get_html_string(), "title") != esc.get(v, None) and v in esc:
+            got = emitted_value(t.get_html_string(), "title")
+            if v in esc and got != esc[v] and not merged_ok((("p", v),), got):
                 ck.py_violation(f"setitem {v!r}", t.get_html_string(), "item assignment: value not written through the seven-character map")
     ck.extra_cov["extra_evaluations"] = len(cases) + ck.extra_cov.get("merge_cases", 0)
     return ck.finish(matchers=MATCHERS)
